@@ -49,6 +49,22 @@ func (ex *Exec) execInstr(fr *Frame, st *State, ins ssa.Instruction) {
 		// heap-allocated
 		r := ex.freshObject(st, x.Comment)
 		ex.store(st, TV{r}, el, TV{ex.tm.ZeroOf(el)})
+		if su, isStruct := types.Unalias(el).Underlying().(*types.Struct); isStruct {
+			if _, isT := ex.tm.isTargetStruct(el); !isT && su.NumFields() <= 32 {
+				// a new object of a struct type from another package: its
+				// (opaque) field cells start out zero as well
+				for i := 0; i < su.NumFields(); i++ {
+					ft := su.Field(i).Type()
+					if _, nested := types.Unalias(ft).Underlying().(*types.Struct); nested {
+						continue
+					}
+					switch fa := ex.fieldAddr(st, TV{r}, el, i).(type) {
+					case Loc, TV:
+						ex.store(st, fa, ft, TV{ex.tm.ZeroOf(ft)})
+					}
+				}
+			}
+		}
 		fr.vals[x] = TV{r}
 		if x.Comment != "" {
 			// make it addressable by name in contracts through a pseudo cell
